@@ -18,9 +18,10 @@ EXPLANATION = (
     '(random, clock, uuid, id/hash, environment, iteration over sets) are reachable only through RAND, RANDBETWEEN, '
     'NOW, TODAY or are identity uses; (C05.4) no shared mutable global state: each evaluator copies the function '
     'table in its constructor body, the decimal rounding mode is only changed inside a local context.'
-    ' (C05.2) also: a memoised plain function is keyed by arguments that are provably plain strings at every call site (1 == 1.0 == True, and the value classes compare by Excel semantics with equal hashes: whichever key arrives first would decide later results).')
+    ' (C05.2) also: a memoised plain function is keyed by arguments that are provably plain strings at every call site (1 == 1.0 == True, and the value classes compare by Excel semantics with equal hashes: whichever key arrives first would decide later results).'
+    ' (C05.6) witness workbook interpreted end to end: each cell alone vs all cells in written order twice / reversed / on a second evaluator, evaluators with namespaces of their own, constants and formula texts untouched, a second model with the same formula texts in the same process; (C05.2) also class-level containers grown on the evaluation path and raise of an exception object taken out of a container.')
 NOT_DECIDED = 'resident-set measurements; equality of values across evaluation orders (follows only under the model)'
-TRUSTED = ['call-graph restricted to evaluator.py, ast_nodes.py and the registered functions']
+TRUSTED = ['call-graph restricted to evaluator.py, ast_nodes.py and the registered functions', 'workbook scenarios: pandas storage of range arrays as row-major rows, numpy on Python numbers (IEEE results, 64-bit integer wrap), dateutil.parser.parse rejecting texts that are no dates, openpyxl address arithmetic, inspect.signature built from the FunctionDef', 'functools.lru_cache keyed by hash/equality of the arguments']
 
 FORBIDDEN_ATTRS = {'formula', 'formulae', 'defined_names', 'address', 'terms', 'tokens', 'ast', 'cells',
                    'sheet_name', 'address_str', 'name'}
@@ -143,6 +144,22 @@ def _str_kind(expr, fn):
                 return isinstance(a.annotation, ast.Name) and a.annotation.id == 'str'
         binds = [x for x in walk_local(fn) if isinstance(x, ast.Assign) and any(isinstance(t, ast.Name) and t.id == expr.id for t in x.targets)]
         return bool(binds) and all(_str_kind(b.value, fn) for b in binds)
+    return False
+
+
+def _bounded_string_key(node, fn):
+    """A store `container[key] = value` / `container.setdefault(key, value)` whose key is provably a plain string or a tuple of plain
+    strings: the container holds at most one entry per distinct text of the model - a bounded cache, not growth per evaluation.
+    (Whether the key says enough is decided by the scenario rules, not here.)"""
+    def plain(k):
+        if isinstance(k, ast.Tuple):
+            return bool(k.elts) and all(plain(e) for e in k.elts)
+        return _str_kind(k, fn)
+    if isinstance(node, ast.Assign):
+        subs = [t for t in node.targets if isinstance(t, ast.Subscript)]
+        return bool(subs) and all(plain(t.slice) for t in subs)
+    if isinstance(node, ast.Call) and isinstance(node.func, ast.Attribute) and node.func.attr == 'setdefault' and node.args:
+        return plain(node.args[0])
     return False
 
 
@@ -316,6 +333,9 @@ def rule_2(ctx):
                     name = next(t.value.id for t in node.targets if isinstance(t, ast.Subscript) and isinstance(t.value, ast.Name))
                 if name and name in containers and name not in locals_:
                     registration = fn in reg_funcs
+                    if not registration and _bounded_string_key(node, fn):
+                        ctx.ok(node, f'{qual}: module-level `{name}` keyed by plain strings', 'entries are bounded by the distinct texts of the model')
+                        continue
                     ctx.expect(registration, node, f'{qual} grows module-level `{name}`',
                                f'module-level container `{name}` is extended from {qual}(), which is not an import-time '
                                'registration decorator: state accumulates across evaluations')
@@ -355,6 +375,10 @@ def rule_2(ctx):
                                 tgt = t.value
                     if isinstance(tgt, ast.Attribute) and isinstance(tgt.value, ast.Name) and tgt.attr in shared and tgt.attr not in own \
                             and (tgt.value.id == first or tgt.value.id in m.classes or tgt.value.id == '__class__'):
+                        if _bounded_string_key(node, st):
+                            ctx.ok(node, f'{cname}.{st.name}: class-level `{tgt.attr}` keyed by plain strings',
+                                   'entries are bounded by the distinct texts of the model')
+                            continue
                         ctx.bad(node, f'{cname}.{st.name} grows class-level `{tgt.attr}`',
                                 f'the container `{tgt.attr}` is created once in the body of class {shared[tgt.attr]} and shared by every instance; '
                                 f'{cname}.{st.name}() stores into it on the evaluation path: what it holds (values, exception instances with their '
